@@ -15,6 +15,8 @@ import (
 	"time"
 	"unicode/utf8"
 
+	"github.com/influxdata/kapacitor"
+	"github.com/influxdata/kapacitor/models"
 	"github.com/influxdata/kapacitor/tick/ast"
 	"github.com/influxdata/kapacitor/tick/stateful"
 
@@ -330,10 +332,70 @@ var nativeFn = map[string]bool{"count": true, "sigma": true, "spread": true, "if
 type evalOp struct {
 	inst  int
 	path  string
-	binds []binding
+	binds []binding // the scope (for a point: what fillScope is expected to bind, used for the oracle lines only)
+	// path == "point": kapacitor.EvalPredicate against this point
+	tm     int64
+	fields []binding
+	tags   []binding
+}
+
+// point implements edge.FieldsTagsTimeGetter.
+type point struct {
+	tm     time.Time
+	fields models.Fields
+	tags   models.Tags
+}
+
+func (p point) Fields() models.Fields { return p.fields }
+func (p point) Tags() models.Tags     { return p.tags }
+func (p point) Time() time.Time       { return p.tm }
+
+func init() { time.Local = time.UTC } // fillScope binds "time" to now.Local(): keep hour()/day() independent of the machine's zone
+
+// denoted: the scope the property expects for a point (own reading of the documentation, used only to decide
+// which oracle entries to supply).
+func (o evalOp) denoted(names []string) []binding {
+	var bs []binding
+	for _, n := range names {
+		if n == "time" {
+			bs = append(bs, binding{n, time.Unix(0, o.tm).UTC()})
+			continue
+		}
+		var fv, tv interface{}
+		for _, f := range o.fields {
+			if f.name == n && fv == nil {
+				fv = f.val
+			}
+		}
+		for _, t := range o.tags {
+			if t.name == n && tv == nil {
+				tv = t.val
+			}
+		}
+		switch {
+		case fv != nil && tv != nil:
+		case fv != nil:
+			bs = append(bs, binding{n, fv})
+		case tv != nil:
+			bs = append(bs, binding{n, tv})
+		default:
+			bs = append(bs, binding{n, ast.MissingValue})
+		}
+	}
+	return bs
 }
 
 func (o evalOp) line() string {
+	if o.path == "point" {
+		t := []string{"pt", strconv.Itoa(o.inst), strconv.FormatInt(o.tm, 10)}
+		for _, b := range o.fields {
+			t = append(t, "F", kit.Esc(b.name), renderVal(b.val))
+		}
+		for _, b := range o.tags {
+			t = append(t, "T", kit.Esc(b.name), kit.Esc(b.val.(string)))
+		}
+		return strings.Join(t, " ")
+	}
 	t := []string{"ev", strconv.Itoa(o.inst), o.path}
 	for _, b := range o.binds {
 		t = append(t, kit.Esc(b.name), renderVal(b.val))
@@ -377,6 +439,24 @@ func execCase(lines []string) (out []string) {
 				o.binds = append(o.binds, binding{n, v})
 			}
 			evs = append(evs, o)
+		case "pt":
+			k, _ := strconv.Atoi(t[1])
+			tm, _ := strconv.ParseInt(t[2], 10, 64)
+			o := evalOp{inst: k, path: "point", tm: tm}
+			for i := 3; i+2 < len(t); i += 3 {
+				n, _ := kit.Unesc(t[i+1])
+				if t[i] == "F" {
+					v, err := parseVal(t[i+2])
+					if err != nil {
+						return []string{"bad " + err.Error()}
+					}
+					o.fields = append(o.fields, binding{n, v})
+				} else {
+					v, _ := kit.Unesc(t[i+2])
+					o.tags = append(o.tags, binding{n, v})
+				}
+			}
+			evs = append(evs, o)
 		}
 	}
 	if e == nil {
@@ -384,9 +464,20 @@ func execCase(lines []string) (out []string) {
 	}
 	out = append(out, "expr "+strings.Join(e.tokens(), " "))
 	var oras []string
-	for _, o := range evs {
-		oracleLines(e, o.binds, seen, &oras)
+	refSet := map[string]bool{}
+	collectRefs(e, refSet)
+	var refNames []string
+	for n := range refSet {
+		refNames = append(refNames, n)
 	}
+	sortStrings(refNames)
+	for i := range evs {
+		if evs[i].path == "point" {
+			evs[i].binds = evs[i].denoted(refNames)
+		}
+		oracleLines(e, evs[i].binds, seen, &oras)
+	}
+	var pool stateful.ScopePool
 	out = append(out, oras...)
 	guard := func(line string, f func() string) {
 		defer func() {
@@ -422,7 +513,7 @@ func execCase(lines []string) (out []string) {
 				insts[k] = insts[0].CopyReset()
 				out = append(out, line)
 			}
-		case "ev":
+		case "ev", "pt":
 			o := evs[evIdx]
 			evIdx++
 			se := insts[o.inst]
@@ -434,6 +525,19 @@ func execCase(lines []string) (out []string) {
 				continue
 			}
 			guard(o.line(), func() string {
+				if o.path == "point" {
+					if pool == nil {
+						pool = stateful.NewScopePool(ast.FindReferenceVariables(e.node()))
+					}
+					p := point{tm: time.Unix(0, o.tm).UTC(), fields: models.Fields{}, tags: models.Tags{}}
+					for _, f := range o.fields {
+						p.fields[f.name] = f.val
+					}
+					for _, tg := range o.tags {
+						p.tags[tg.name] = tg.val.(string)
+					}
+					return obsValue(kapacitor.EvalPredicate(se, pool, p))
+				}
 				sc := mkScope(o.binds)
 				switch o.path {
 				case "eval":
